@@ -21,6 +21,7 @@ use crate::rng::Rng;
 use crate::{ensure, fail};
 use serde::{Deserialize, Serialize};
 use std::collections::BTreeSet;
+use surf_n_term::image::{KDTree, OcTree};
 use surf_n_term::{Color, ColorPalette, Image, Size, Surface, SurfaceOwned, RGBA};
 
 pub struct C13;
@@ -42,6 +43,13 @@ pub enum Case {
         colors: Vec<u32>,
         /// additional queries 0xRRGGBB (the +-1 neighbourhood of every colour is always asked)
         queries: Vec<u32>,
+    },
+    /// the public building blocks used directly: `OcTree::{insert, prune_until, build_palette, find}`
+    /// and `KDTree::{new, find}`
+    Trees {
+        /// 0xRRGGBB, inserted in this order
+        colors: Vec<u32>,
+        requested: usize,
     },
 }
 
@@ -138,6 +146,16 @@ impl Prop for C13 {
                 colors.extend(other);
             }
             rng.shuffle(&mut colors);
+            if rng.chance(1, 3) {
+                let requested = match rng.below(6) {
+                    0 => rng.range(0, 8),
+                    1 => colors.len(),
+                    2 => colors.len().saturating_sub(1),
+                    3 => 256,
+                    _ => rng.range(1, 300),
+                };
+                return Case::Trees { colors, requested };
+            }
             let nq = if tier.quick() { 1500 } else { 4000 };
             let queries = (0..nq).map(|_| rng.next_u32() & 0xff_ffff).collect();
             return Case::Lookup { colors, queries };
@@ -255,6 +273,103 @@ impl Prop for C13 {
     fn check(case: &Case, ctx: &mut Ctx) -> Result<(), Fail> {
         ctx.feat("cases");
         match case {
+            Case::Trees { colors, requested } => {
+                if colors.is_empty() || colors.len() > 4096 {
+                    ctx.nondeciding = true;
+                    return Ok(());
+                }
+                let list: Vec<[u8; 3]> = colors.iter().map(|c| [(c >> 16) as u8, (c >> 8) as u8, *c as u8]).collect();
+                let distinct: BTreeSet<[u8; 3]> = list.iter().copied().collect();
+                let mut tree = OcTree::new();
+                for c in colors.iter() {
+                    tree.insert(rgb(*c));
+                }
+                tree.prune_until(*requested);
+                let palette = tree.build_palette();
+                let bound = (*requested).max(8);
+                ctx.feat("trees.cases");
+                ensure!(
+                    !palette.is_empty() && palette.len() <= bound,
+                    if palette.is_empty() { "octree:empty-palette" } else { "octree:palette-larger-than-max(requested,8)" },
+                    "{} distinct colours, prune_until({requested}): build_palette returns {} colours (allowed 1..={bound})",
+                    distinct.len(),
+                    palette.len()
+                );
+                let pal: Vec<[u8; 3]> = palette.iter().map(|c| c.to_rgb()).collect();
+                if distinct.len() <= bound {
+                    // nothing had to be pruned: the palette is exactly the set of colours
+                    let got: BTreeSet<[u8; 3]> = pal.iter().copied().collect();
+                    ensure!(
+                        got == distinct && pal.len() == distinct.len(),
+                        "octree:fitting-colours-not-kept",
+                        "{} distinct colours fit max({requested},8), the palette has {} entries ({} distinct) and {}",
+                        distinct.len(),
+                        pal.len(),
+                        got.len(),
+                        if got == distinct { "repeats some" } else { "differs from the inserted set" }
+                    );
+                    ctx.feat("trees.octree.exact");
+                } else {
+                    ctx.feat("trees.octree.pruned");
+                }
+                // leaf indices handed out by build_palette address the palette
+                for c in distinct.iter() {
+                    if let Some((index, color)) = tree.find(RGBA::new(c[0], c[1], c[2], 255)) {
+                        ensure!(
+                            index < pal.len() && pal[index] == color.to_rgb(),
+                            "octree:find-index-colour-disagree",
+                            "OcTree::find({c:?}) = (index {index}, {:?}) but palette[{index}] = {:?} (palette of {})",
+                            color.to_rgb(),
+                            pal.get(index),
+                            pal.len()
+                        );
+                        ensure!(
+                            distinct.len() > bound || color.to_rgb() == *c,
+                            "octree:find-inexact-without-pruning",
+                            "OcTree::find({c:?}) = {:?} although all {} colours fit",
+                            color.to_rgb(),
+                            distinct.len()
+                        );
+                    } else {
+                        // a colour whose subtree was pruned away may have no leaf on its path
+                        ensure!(
+                            distinct.len() > bound,
+                            "octree:find-none-for-kept-colour",
+                            "OcTree::find({c:?}) = None although nothing had to be pruned"
+                        );
+                    }
+                }
+                // the k-d tree over that palette: nearest entry for every query
+                let kd = KDTree::new(&palette);
+                let mut rng = Rng::new(colors.len() as u64 ^ *requested as u64);
+                let mut asked = 0u64;
+                let mut queries: Vec<[u8; 3]> = distinct.iter().copied().take(64).collect();
+                for _ in 0..200 {
+                    let v = rng.next_u32();
+                    queries.push([(v >> 16) as u8, (v >> 8) as u8, v as u8]);
+                }
+                for q in queries {
+                    let (index, color) = kd.find(RGBA::new(q[0], q[1], q[2], 255));
+                    ensure!(
+                        index < pal.len() && pal[index] == color.to_rgb(),
+                        "kdtree:index-colour-disagree",
+                        "KDTree::find({q:?}) = (index {index}, {:?}), palette[{index}] = {:?}",
+                        color.to_rgb(),
+                        pal.get(index)
+                    );
+                    ensure!(
+                        dist(pal[index], q) == min_dist(&pal, q),
+                        "kdtree:not-nearest",
+                        "KDTree::find({q:?}) = {:?} at squared distance {}, nearest entry is at {}",
+                        pal[index],
+                        dist(pal[index], q),
+                        min_dist(&pal, q)
+                    );
+                    asked += 1;
+                }
+                ctx.feat_n("trees.kdtree.queries", asked);
+                Ok(())
+            }
             Case::Lookup { colors, queries } => {
                 if colors.is_empty() || colors.len() > 512 {
                     ctx.nondeciding = true;
@@ -473,7 +588,7 @@ impl Prop for C13 {
 
     fn nontrivial(case: &Case) -> bool {
         match case {
-            Case::Lookup { colors, .. } => !colors.is_empty(),
+            Case::Lookup { colors, .. } | Case::Trees { colors, .. } => !colors.is_empty(),
             Case::Quantize { w, h, crop, .. } => {
                 let (r0, r1, c0, c1) = crop.unwrap_or((0, *h, 0, *w));
                 r1 > r0 && c1 > c0
@@ -484,6 +599,13 @@ impl Prop for C13 {
     fn case_hash(case: &Case) -> u64 {
         let mut bytes: Vec<u8> = Vec::new();
         match case {
+            Case::Trees { colors, requested } => {
+                bytes.push(2);
+                bytes.extend_from_slice(&(*requested as u64).to_le_bytes());
+                for c in colors.iter() {
+                    bytes.extend_from_slice(&c.to_le_bytes());
+                }
+            }
             Case::Lookup { colors, queries } => {
                 bytes.push(1);
                 for c in colors.iter().chain(queries.iter()) {
@@ -511,6 +633,13 @@ impl Prop for C13 {
     fn shrink(case: &Case) -> Vec<Case> {
         let mut out = Vec::new();
         match case {
+            Case::Trees { colors, requested } => {
+                for c in crate::core::shrink_vec(colors) {
+                    if !c.is_empty() {
+                        out.push(Case::Trees { colors: c, requested: *requested });
+                    }
+                }
+            }
             Case::Lookup { colors, queries } => {
                 for c in crate::core::shrink_vec(colors) {
                     if !c.is_empty() {
@@ -607,11 +736,15 @@ impl Prop for C13 {
     }
 
     fn rule() -> &'static str {
-        "case = Quantize(pixel buffer <= 64x64 [rarely 300x300, subsampled], optional crop, requested 1..=300, dither flag, background) or Lookup(palette of 1..=512 colours with duplicates/clusters, random queries; the +-1 neighbourhood of every colour is always queried); non-trivial = non-empty image / palette; distinct = hash of the whole case"
+        "case = Quantize(pixel buffer <= 64x64 [rarely 300x300, subsampled], optional crop, requested 1..=300, dither flag, background) or Lookup(palette of 1..=512 colours with duplicates/clusters, random queries; the +-1 neighbourhood of every colour is always queried) or Trees(colours inserted into an OcTree, prune_until(requested), build_palette, OcTree::find, KDTree over the palette); non-trivial = non-empty image / palette; distinct = hash of the whole case"
     }
 
     fn sample(case: &Case) -> serde_json::Value {
         match case {
+            Case::Trees { colors, requested } => serde_json::json!({
+                "kind": "trees", "colors": colors.len(), "requested": requested,
+                "head": colors.iter().take(6).map(|c| format!("{c:06x}")).collect::<Vec<_>>(),
+            }),
             Case::Lookup { colors, queries } => serde_json::json!({
                 "kind": "lookup", "colors": colors.len(), "queries": queries.len(),
                 "head": colors.iter().take(6).map(|c| format!("{c:06x}")).collect::<Vec<_>>(),
